@@ -35,7 +35,7 @@ def gen_scenario(rng: random.Random, policy: str, flavour: str = "mixed"):
         multi = True if flavour != "single" else False      # the policy ignores single-operator mode (known finding D6)
     cpus = rng.choice([1, 2, 4, 10, 20, 32])
     # pool RAM: integer GB (so that the policies' int(total/10) GB requests stay on the unit grid)
-    ram = rng.choice([1, 2, 5, 10, 20, 40, 80, 200, 400])
+    ram = rng.choice([1, 2, 5, 10, 20, 40, 80, 200, 400, F(5, 2), F(21, 2), F(161, 4)])
     if flavour == "tiny":
         cpus, ram = rng.choice([1, 2]), rng.choice([F(1, 2), F(3, 4), 1])
     if flavour == "preempt":
